@@ -158,6 +158,7 @@ def _registry():
     reg("f32-lo", lambda: np.float32(0.1))
     reg("f64-hi", lambda: np.float64(0.875))
     reg("f32-hi", lambda: np.float32(0.9))
+    reg("f32-mid", lambda: np.float32(0.6))
     reg("inf", lambda: float("inf"))
     reg("-inf", lambda: float("-inf"))
     reg("None", lambda: None)
@@ -384,7 +385,7 @@ def _registry():
                   center=[U(0.0, 1.0), 3.0, U(5.0, 10.0)])]))
     reg("M:spheres-shared", lambda: (lambda r, z: sc.Spheres([
         sc.Sphere(n=U(1.4, 1.6), r=r, center=[U(0.0, 1.0), 0.0, z]),
-        sc.Sphere(n=1.5, r=r, center=[U(0.0, 1.0), 3.0, z])]))(
+        sc.Sphere(n=U(1.4, 1.6), r=r, center=[U(0.0, 1.0), 3.0, z])]))(
             U(0.25, 0.75), U(5.0, 10.0)))
     reg("M:spheroid", lambda: sc.Spheroid(
         n=U(1.4, 1.6), r=[U(0.25, 0.75), U(0.25, 0.75)],
@@ -453,7 +454,7 @@ LENSANG = ["0.75", "1/3", "f64", "f32", "int1"]
 # constructor branch is in QSET.
 QSET = set("""
 0.5 1e-300 -0.0 int2 int0 int1 int7 int40 1.5 0.25 0.75 f64 f32 i64 f32-lo
-f32-hi inf -inf None True False cplx c128 str:par str:auto
+f32-hi f32-mid inf -inf None True False cplx c128 str:par str:auto
 P:U P:G P:BG P:CP P:add P:sqrt
 V3:list V3:tuple V3:arr V3:f32 V3:priors V2:list V2:tuple V2:arr V2:f32
 V2:priors N2:list N2:tuple N2:arr N2:f32 N2:priors N2:cplx N2:c128
@@ -586,10 +587,10 @@ TABLE = {
                                 "f64-lo", "f32-lo"],
                 "upper_bound": ["0.75", "int1", "1e300", "inf", "f64-hi",
                                 "f32-hi"],
-                "guess": [OMIT, "None", "0.5", "1/3", "f64", "f32"],
+                "guess": [OMIT, "None", "0.5", "1/3", "f64", "f32-mid"],
                 "name": [OMIT] + NAME},
     "Gaussian": {"mu": REAL, "sd": POS, "name": [OMIT] + NAME},
-    "BoundedGaussian": {"mu": ["0.5", "1/3", "f64", "f32"],
+    "BoundedGaussian": {"mu": ["0.5", "1/3", "f64", "f32-mid"],
                         "sd": ["0.25", "1e-300", "1e300", "int2", "f32",
                                "i64"],
                         "lower_bound": [OMIT, "0.25", "int0", "-inf",
@@ -652,7 +653,7 @@ TIE_PLANS = {
     "M:spheres": [(["0:r", "1:r"], None),
                   (["0:center.0", "1:center.0"], "x")],
     "M:spheres-shared": [(["0:center.0", "1:center.0"], None),
-                         (["0:n", "r"], None)],
+                         (["0:n", "1:n"], "n")],
     "M:spheroid": [(["r.0", "r.1"], "radius")],
 }
 
